@@ -374,7 +374,12 @@ MODULES["Sparse"] = dict(
         dict(name="sp_to_triplets", file=SPR, impl=SP_IMPL, fn="to_triplets", locals={"triplets": "vect"}),
         dict(name="sp_to_dense", file=SPR, impl=SP_IMPL, fn="to_dense"),
         dict(name="sp_insert", file=SPR, impl=SP_IMPL, fn="insert"),
+        # round two (package r2c2): sort_by_key(|t| t.1) = the stable insertion sort sort_by_col of Model/Sparse.v (std's
+        # sort_by_key is stable, the result of a stable sort is unique); `for t in triplets.drain(..)` = for_in, then empty
+        dict(name="sp_from_triplets", file=SPR, impl=SP_IMPL, fn="from_triplets", locals={"row_index": "vecn", "col_index": "vecn"}),
     ])
+METHODS[("vect", "sort_by_key:proj1", 0)] = dict(g="sort_by_col {0}", ret="unit", out=["recv"])
+PATHS[("Vector::create", 1)] = [dict(g="{0}", ret="vec", atom=True, args=["vec"]), dict(g="{0}", ret="vecn", atom=True, args=["vecn"])]
 
 # ---------------------------------------------------------------------------------------------------- Vector<f64> only (vec_f64.rs)
 # over an SArith F (sqrt, of_nat) with the two calls that are not IEEE primitives as Section variables, exactly as the
@@ -388,3 +393,29 @@ MODULES["Vec64"] = dict(
               paths={("f64::powf", 2): dict(g="powf {0} {1}", ret="elem", args=["elem", "elem"]),
                      ("f64::sqrt", 1): dict(g="sqrt {0}", ret="elem", args=["elem"])}),
     funcs=[dict(name=n, file=V_F64, impl=r"^Vector<f64>$", fn=n) for n in ["linspace", "powspace", "norm_2", "norm_p", "norm_inf"]])
+
+# ---------------------------------------------------------------------------------------------------- Iter (Model/Iter.v): round two
+# the four Krylov solvers of `impl Sparse<f64>` over an SArith.  norm_2 is the model's norm2 (Iter.v; = Vec64.norm_2 with
+# fabs := abs, the trusted reading powf(|x|, 2.0) = |x|*|x| of Model/Vector.v), identity_preconditioner the model's ident_pre
+# (proved equal to its source in SrcEqSparse.src_sp_ident_pre).  Result<usize, f64> is the model's iresult (IOk / IErr).
+# `while iter < max_iter { iter += 1; .. }` of solve_bicg: at most max_iter passes, so the fuel S max_iter is never exhausted
+# (the poison value Panic Guard is shown unreachable by the equality lemma).
+GTYPES["iresult"] = "(iresult F)"
+RUST_TYPES.append((r"^Result<usize,f64>$", "iresult"))
+IT_IMPL = r"^Sparse<f64>$"
+MODULES["Iter"] = dict(
+    imports="From OV Require Import Base.Panic Base.Arith Model.Vector Model.Matrix Model.Sparse Model.Iter gen.SrcPrelude.",
+    context=["Context {F : SArith}.", "Local Notation A := (SA F)."],
+    spec=dict(sarith=True,
+              result_enum=dict(ty="iresult", ok="IOk", err="IErr", ok_ty="usize", err_ty="elem"),
+              methods={("vec", "norm_2", 0): dict(g="norm2 {0}", ret="elem"),
+                       ("elem", "sqrt", 0): dict(g="sqrt {0}", ret="elem"),
+                       ("sp", "identity_preconditioner", 2): dict(g="ident_pre (sp_rows {0}) {1} {2}", ret="unit", fallible=True,
+                                                                  out=["arg1"], args=["vec", "vec"])}),
+    funcs=[
+        dict(name="solve_cg", file=SPR, impl=IT_IMPL, fn="solve_cg"),
+        dict(name="solve_bicg", file=SPR, impl=IT_IMPL, fn="solve_bicg",
+             **{"while": {1: dict(fuel="(S {max_iter})", on_exhaust="Panic Guard")}}),
+        dict(name="solve_bicgstab", file=SPR, impl=IT_IMPL, fn="solve_bicgstab"),
+        dict(name="solve_qmr", file=SPR, impl=IT_IMPL, fn="solve_qmr"),
+    ])
